@@ -355,6 +355,7 @@ func main() {
 		}(w)
 	}
 	id := 0
+	var okJobs, badJobs []job
 	homs := saslmap.Homs(2)
 	slowLeft := 2
 	for i := range edges {
@@ -416,11 +417,28 @@ func main() {
 				slow = true
 				chunks = []int{2, -3000, len(data) / 2, -3000, len(data)}
 			}
-			ch <- job{e: e, data: data, fields: r.Fields, chunks: chunks, id: id, slow: slow}
+			jb := job{e: e, data: data, fields: r.Fields, chunks: chunks, id: id, slow: slow}
+			if !slow && e.Fin == "halfclose" {
+				if e.Stream == "bad" {
+					badJobs = append(badJobs, jb)
+				} else if e.Cb.Ok && !e.Cb.Err {
+					okJobs = append(okJobs, jb)
+				}
+			}
+			ch <- jb
 		}
 	}
 	close(ch)
 	wg.Wait()
+	// one connection after the other on the same server: an approved login, then an undecodable stream (and an approved one
+	// again): nothing of a connection's outcome may be left behind for the next one
+	if len(okJobs) > 0 {
+		r := rand.New(rand.NewSource(*seed + 99))
+		for i := 0; i < len(badJobs) && i < 600; i++ {
+			runJob(sock, okJobs[i%len(okJobs)], r)
+			runJob(sock, badJobs[i], r)
+		}
+	}
 	mu.Lock()
 	if len(stray) > 0 {
 		viol["callback-with-unsent-fields"] = Violation{"callback-with-unsent-fields", fmt.Sprintf("%d invocations with a login no connection sent, e.g. %q", len(stray), stray[0]), nil}
